@@ -419,6 +419,10 @@ fn coordinated_edits(original: &str, max_pairs: usize, emit: &mut dyn FnMut(&str
             ("whole original package nested under an unknown key at the very front", format!("{{\"backup\":{original},{}\"snapshot\":{e},{tail}}}", &head[1..])),
             ("original snapshot and checksum members nested under an unknown key in front", format!("{head}\"previous\":{{\"snapshot\":{body},{tail}}},\"snapshot\":{e},{tail}}}")),
             ("original package as a string value in front", format!("{head}\"note\":{},\"snapshot\":{e},{tail}}}", serde_json::to_string(original).unwrap())),
+            ("the edited snapshot body alone, without version and checksum", e.clone()),
+            ("the edited snapshot body with the version only", format!("{head}\"snapshot\":{e}}}")),
+            ("the edited snapshot body with the checksum only", format!("{{\"snapshot\":{e},{tail}}}")),
+            ("the edited snapshot's members spliced into the envelope", format!("{head}{},{tail}}}", &e[1..e.len() - 1])),
             ("checksum and snapshot swapped, original body under an unknown key", format!("{head}{tail},\"previous\":{body},\"snapshot\":{e}}}")),
         ];
         for (name, t) in variants {
